@@ -86,7 +86,7 @@ fn plan(prop: &str) -> Vec<(Sim, usize, usize)> {
         "C01" => vec![(AStore, 6000, 400_000), (BDec, 12_000, 600_000), (ACorner, 12, 400), (BOneshot, 3000, 100_000)],
         "C02" => vec![(BEnc, 16_000, 800_000), (AStore, 4000, 300_000), (BDec, 3000, 100_000), (ACorner, 8, 300)],
         "C03" => vec![(AStore, 6000, 400_000), (BEnc, 8000, 400_000), (BDec, 8000, 400_000), (ACorner, 24, 600)],
-        "C04" => vec![(Jumbo, 0, 4), (BEnc, 14_000, 700_000), (BDec, 10_000, 500_000), (AStore, 3000, 200_000)],
+        "C04" => vec![(Jumbo, 0, 3), (BEnc, 14_000, 700_000), (BDec, 10_000, 500_000), (AStore, 3000, 200_000)],
         "C05" => vec![(BEnc, 14_000, 800_000), (BDec, 12_000, 700_000), (AStore, 3000, 200_000)],
         "C06" => vec![(BEnc, 12_000, 600_000), (BDec, 12_000, 600_000), (BOneshot, 10_000, 500_000), (AStore, 3000, 200_000), (ACorner, 24, 600)],
         "C07" => vec![(BEnc, 14_000, 700_000), (BDec, 14_000, 700_000), (AStore, 3000, 200_000)],
